@@ -15,7 +15,8 @@ from nmea2000.decoder import NMEA2000Decoder
 ID = "C10"
 
 ENTRIES = [127250, 65280, 130816, 60928, "vesselHeading", "VESSELHEADING", "furunoHeave", "FurunoHeave",
-           "isoAddressClaim", "ISOADDRESSCLAIM", "noSuchId", 99999]
+           "isoAddressClaim", "ISOADDRESSCLAIM", "noSuchId", 99999,
+           "sonichubInit2", "0x1FF000x1FFFFmanufacturerSpecificFastPacketNonAddressed"]   # ids of two fast-packet definitions sharing PGN 130816
 
 
 def events():
@@ -32,6 +33,11 @@ def events():
     ident = wire.can_id(3, 130816, 1, 255)
     ev["f0"] = wire.ebyte_packet(ident, fr[0])
     ev["f1"] = wire.ebyte_packet(ident, fr[1])
+    # another definition of the same PGN on the same stream, carrying the same sequence counter
+    # (sonichubInit2, 9 bytes): a filtered message must leave nothing behind that could swallow it
+    gr = wire.fast_frames(3, bytes.fromhex("1389550180fe7ffe7f"))
+    ev["g0"] = wire.ebyte_packet(ident, gr[0])
+    ev["g1"] = wire.ebyte_packet(ident, gr[1])
     return ev
 
 
@@ -117,7 +123,7 @@ def run_config(args):
 
 
 def configs(ctx):
-    kmax = 4 if ctx.thorough else 3
+    kmax = 3 if ctx.thorough else 2
     out = [("exclude", ()), ("include", ())]
     for k in range(1, kmax + 1):
         for combo in itertools.combinations(ENTRIES, k):
@@ -151,7 +157,7 @@ def run(ctx):
         "rule": "BFS states of (filtered decoder, unfiltered decoder) per configuration; every transition feeds one event to both; "
                 "non-trivial = a state in which a source has claimed or a fast-packet message is partly received",
         "samples": samples, "configurations": len(cfgs), "max_depth": depth,
-        "bound_completed": f"fixed point in every configuration; configurations = exclude/include x all subsets of <= {4 if ctx.thorough else 3} of 12 entries + empty",
+        "bound_completed": f"fixed point in every configuration; configurations = exclude/include x all subsets of <= {3 if ctx.thorough else 2} of 14 entries + empty",
         "exhaustive": closed,
     }
     return {"coverage": cov, "violations": vios,
